@@ -1029,3 +1029,149 @@ Proof.
   unfold dot3, cross0, cross1, cross2, skew00, skew01, skew02, skew10, skew11, skew12, skew20, skew21, skew22.
   split_all; ring.
 Qed.
+
+(** * 6. Non-vacuity: the hypotheses of the theorems hold on concrete, non-trivial instances *)
+
+(** coning and sculling terms are visible: a = (1,0,0), b = (0,1,0): gyros = (T + T^5/30, T^2 - T^4/24, - T^3/6) *)
+Lemma incr_example :
+  incr_readings_gyros0 1 1 0 0 0 1 0 0 0 0 0 0 0 0 0 0 = 31 / 30 /\
+  incr_readings_gyros1 1 1 0 0 0 1 0 0 0 0 0 0 0 0 0 0 = 23 / 24 /\
+  incr_readings_gyros2 1 1 0 0 0 1 0 0 0 0 0 0 0 0 0 0 = - 1 / 6 /\
+  incr_readings_accels0 1 1 0 0 0 0 0 0 0 0 0 1 0 0 0 0 = 0 /\
+  incr_readings_accels1 1 1 0 0 0 0 0 0 0 0 0 1 0 0 0 0 = 5 / 6 /\
+  incr_readings_accels2 1 1 0 0 0 0 0 0 0 0 0 1 0 0 0 0 = - 1 / 2.
+Proof. unf_incr. split_all; field. Qed.
+
+(** a body moving east along the parallel of 30 deg N at 1/1000 deg/s (about 96 m/s), 1000 m up:
+    all hypotheses of specific_force_inverts_rhs hold, so its conclusion holds for this trajectory *)
+Definition ex_VE : R := 1 / 1000 * d2r * ((nav_Re 30 + 1000) * cos (30 * d2r)).
+
+Lemma inverts_rhs_example (t roll pitch heading w0 w1 w2 : R) :
+  let lat := fun _ : R => 30 in let lon := fun s : R => 1 / 1000 * s in let alt := fun _ : R => 1000 in
+  let VN := fun _ : R => 0 in let VE := fun _ : R => ex_VE in let VD := fun _ : R => 0 in
+  let lonI := fun s => lon_i (lon s) s in
+  let Vx := fun s => vi_x (lat s) (lonI s) (alt s) (VN s) (VE s) (VD s) in
+  let Vy := fun s => vi_y (lat s) (lonI s) (alt s) (VN s) (VE s) (VD s) in
+  let Vz := fun s => vi_z (lat s) (lonI s) (alt s) (VN s) (VE s) (VD s) in
+  let f := sf_body (lat t) (lonI t) (alt t) roll pitch heading (Derive Vx t) (Derive Vy t) (Derive Vz t) in
+  let rhs := fun F : R -> R -> R -> R -> R -> R -> R -> R -> R -> R -> R -> R -> R -> R -> R -> R -> R -> R -> R -> R -> R -> R =>
+    F (lat t) (lon t) (alt t) (VN t) (VE t) (VD t)
+      (mat_from_rph_m00 roll pitch heading) (mat_from_rph_m01 roll pitch heading) (mat_from_rph_m02 roll pitch heading)
+      (mat_from_rph_m10 roll pitch heading) (mat_from_rph_m11 roll pitch heading) (mat_from_rph_m12 roll pitch heading)
+      (mat_from_rph_m20 roll pitch heading) (mat_from_rph_m21 roll pitch heading) (mat_from_rph_m22 roll pitch heading)
+      w0 w1 w2 (f 0%nat) (f 1%nat) (f 2%nat) in
+  0 < ex_VE /\ rhs nav_rhs_VN = 0 /\ rhs nav_rhs_VE = 0 /\ rhs nav_rhs_VD = 0.
+Proof.
+  cbv zeta.
+  assert (H30 : -90 < 30 < 90) by lra.
+  pose proof (cos_d2r_pos 30 H30) as Hcos. fold d2r in Hcos.
+  pose proof (nav_Re_lower 30) as HRe. pose proof PI_RGT_0 as Hpi.
+  split.
+  - unfold ex_VE, d2r. apply Rmult_lt_0_compat; [apply Rmult_lt_0_compat; lra|].
+    apply Rmult_lt_0_compat; [lra|exact Hcos].
+  - apply (specific_force_inverts_rhs (fun _ => 30) (fun s => 1 / 1000 * s) (fun _ => 1000)
+             (fun _ => 0) (fun _ => ex_VE) (fun _ => 0) t 0 0 0 roll pitch heading w0 w1 w2); cbv beta.
+    + lra.
+    + lra.
+    + unfold nav_rhs_lat. replace (r2d * (0 / (nav_Rn 30 + 1000))) with 0 by (unfold Rdiv; ring).
+      auto_derive; [exact I|ring].
+    + unfold nav_rhs_lon, ex_VE.
+      replace (r2d * (1 / 1000 * d2r * ((nav_Re 30 + 1000) * cos (30 * d2r)) / ((nav_Re 30 + 1000) * cos (30 * d2r))))
+        with (1 / 1000) by (unfold r2d, d2r; field; unfold d2r in Hcos; split_all; lra).
+      auto_derive; [exact I|ring].
+    + unfold nav_rhs_alt. auto_derive; [exact I|ring].
+    + auto_derive; [exact I|ring].
+    + auto_derive; [exact I|ring].
+    + auto_derive; [exact I|ring].
+Qed.
+
+(** a body at rest at latitude L with identity attitude and w = rate_n(L): all hypotheses of
+    angular_rate_inverts_rhs hold (C_nb' = 0 is what the attitude equation returns) *)
+Lemma angular_rate_example (L Lam H t f0 f1 f2 : R) :
+  -90 < L < 90 -> -6000000 < H ->
+  let rhs := fun F : R -> R -> R -> R -> R -> R -> R -> R -> R -> R -> R -> R -> R -> R -> R -> R -> R -> R -> R -> R -> R -> R =>
+    F L Lam H 0 0 0 1 0 0 0 1 0 0 0 1 (rate_n_w0 L) (rate_n_w1 L) (rate_n_w2 L) f0 f1 f2 in
+  0 = rhs nav_rhs_C00 /\
+  0 = rhs nav_rhs_C01 /\
+  0 = rhs nav_rhs_C02 /\
+  0 = rhs nav_rhs_C10 /\
+  0 = rhs nav_rhs_C11 /\
+  0 = rhs nav_rhs_C12 /\
+  0 = rhs nav_rhs_C20 /\
+  0 = rhs nav_rhs_C21 /\
+  0 = rhs nav_rhs_C22.
+Proof.
+  intros HL HH. cbv zeta.
+  apply (angular_rate_inverts_rhs (fun _ => L) (fun _ => Lam) (fun _ => H) (fun _ => 0) (fun _ => 0) (fun _ => 0)
+           (fun _ : R => 1) (fun _ : R => 0) (fun _ : R => 0) (fun _ : R => 0) (fun _ : R => 1) (fun _ : R => 0) (fun _ : R => 0) (fun _ : R => 0) (fun _ : R => 1) t 0 0 0 0 0 0 0 0 0 (rate_n_w0 L) (rate_n_w1 L) (rate_n_w2 L) f0 f1 f2); cbv beta;
+    try assumption;
+    try (unfold nav_rhs_lat; replace (r2d * (0 / (nav_Rn L + H))) with 0 by (unfold Rdiv; ring); auto_derive; [exact I|ring]);
+    try (unfold nav_rhs_lon; replace (r2d * (0 / ((nav_Re L + H) * cos (L * d2r)))) with 0 by (unfold Rdiv; ring); auto_derive; [exact I|ring]);
+    try (auto_derive; [exact I|ring]);
+    unfold dot3, lon_i, skew00, skew01, skew02, skew10, skew11, skew12, skew20, skew21, skew22; unf_rate; unf_en;
+    (auto_derive; [exact I|]); rewrite ?cos_m90, ?sin_m90; unfold RATE_;
+    set (phi := L * (PI / 180)); set (l := (Lam + 1458423 / 20000000000 * (180 / PI) * t) * (PI / 180));
+    assert (Hp : sin phi * sin phi = 1 - cos phi * cos phi) by (pose proof (sc1 phi); lra);
+    assert (Hl : sin l * sin l = 1 - cos l * cos l) by (pose proof (sc1 l); lra);
+    field_simplify_eq; try apply PI_neq0; ring [Hp Hl].
+Qed.
+
+(** * 7. Assembled statements for Props/C03.v *)
+
+Lemma stationary_senses_gravity_and_earth_rate (lat lon alt t : R) : -90 <= lat <= 90 ->
+  let x := fun s => lla_to_ecef_r0 lat (lon_i lon s) alt in
+  let y := fun s => lla_to_ecef_r1 lat (lon_i lon s) alt in
+  let z := fun s => lla_to_ecef_r2 lat (lon_i lon s) alt in
+  (is_derive_n x 2 t (- (RATE_ * RATE_) * x t) /\ is_derive_n y 2 t (- (RATE_ * RATE_) * y t) /\ is_derive_n z 2 t 0) /\
+  (let fx := Derive_n x 2 t - gravitation_ecef_g0 lat (lon_i lon t) alt in
+   let fy := Derive_n y 2 t - gravitation_ecef_g1 lat (lon_i lon t) alt in
+   let fz := Derive_n z 2 t - gravitation_ecef_g2 lat (lon_i lon t) alt in
+   mat_en_from_ll_m00 lat (lon_i lon t) * fx + mat_en_from_ll_m10 lat (lon_i lon t) * fy + mat_en_from_ll_m20 lat (lon_i lon t) * fz = 0 /\
+   mat_en_from_ll_m01 lat (lon_i lon t) * fx + mat_en_from_ll_m11 lat (lon_i lon t) * fy + mat_en_from_ll_m21 lat (lon_i lon t) * fz = 0 /\
+   mat_en_from_ll_m02 lat (lon_i lon t) * fx + mat_en_from_ll_m12 lat (lon_i lon t) * fy + mat_en_from_ll_m22 lat (lon_i lon t) * fz
+     = - gravity_g lat alt) /\
+  body_rate_of (fun s => mat_en_from_ll_m00 lat (lon_i lon s)) (fun s => mat_en_from_ll_m01 lat (lon_i lon s))
+               (fun s => mat_en_from_ll_m02 lat (lon_i lon s)) (fun s => mat_en_from_ll_m10 lat (lon_i lon s))
+               (fun s => mat_en_from_ll_m11 lat (lon_i lon s)) (fun s => mat_en_from_ll_m12 lat (lon_i lon s))
+               (fun s => mat_en_from_ll_m20 lat (lon_i lon s)) (fun s => mat_en_from_ll_m21 lat (lon_i lon s))
+               (fun s => mat_en_from_ll_m22 lat (lon_i lon s))
+               t (rate_n_w0 lat) (rate_n_w1 lat) (rate_n_w2 lat).
+Proof.
+  intros Hlat. cbv zeta. split; [|split].
+  - exact (rest_acceleration lat lon alt t).
+  - exact (rest_specific_force lat lon alt t Hlat).
+  - exact (rest_frame_rate lat lon t).
+Qed.
+
+Lemma stationary_any_attitude (lat lon alt roll pitch heading t : R) : -90 <= lat <= 90 ->
+  let x := fun s => lla_to_ecef_r0 lat (lon_i lon s) alt in
+  let y := fun s => lla_to_ecef_r1 lat (lon_i lon s) alt in
+  let z := fun s => lla_to_ecef_r2 lat (lon_i lon s) alt in
+  (sf_body lat (lon_i lon t) alt roll pitch heading (Derive_n x 2 t) (Derive_n y 2 t) (Derive_n z 2 t) 0
+     = - (mat_from_rph_m20 roll pitch heading * gravity_g lat alt) /\
+   sf_body lat (lon_i lon t) alt roll pitch heading (Derive_n x 2 t) (Derive_n y 2 t) (Derive_n z 2 t) 1
+     = - (mat_from_rph_m21 roll pitch heading * gravity_g lat alt) /\
+   sf_body lat (lon_i lon t) alt roll pitch heading (Derive_n x 2 t) (Derive_n y 2 t) (Derive_n z 2 t) 2
+     = - (mat_from_rph_m22 roll pitch heading * gravity_g lat alt)) /\
+  body_rate_of (fun s => cib lat (lon_i lon s) roll pitch heading 0 0) (fun s => cib lat (lon_i lon s) roll pitch heading 0 1)
+               (fun s => cib lat (lon_i lon s) roll pitch heading 0 2) (fun s => cib lat (lon_i lon s) roll pitch heading 1 0)
+               (fun s => cib lat (lon_i lon s) roll pitch heading 1 1) (fun s => cib lat (lon_i lon s) roll pitch heading 1 2)
+               (fun s => cib lat (lon_i lon s) roll pitch heading 2 0) (fun s => cib lat (lon_i lon s) roll pitch heading 2 1)
+               (fun s => cib lat (lon_i lon s) roll pitch heading 2 2) t
+    (dot3 (mat_from_rph_m00 roll pitch heading) (mat_from_rph_m10 roll pitch heading) (mat_from_rph_m20 roll pitch heading)
+          (rate_n_w0 lat) (rate_n_w1 lat) (rate_n_w2 lat))
+    (dot3 (mat_from_rph_m01 roll pitch heading) (mat_from_rph_m11 roll pitch heading) (mat_from_rph_m21 roll pitch heading)
+          (rate_n_w0 lat) (rate_n_w1 lat) (rate_n_w2 lat))
+    (dot3 (mat_from_rph_m02 roll pitch heading) (mat_from_rph_m12 roll pitch heading) (mat_from_rph_m22 roll pitch heading)
+          (rate_n_w0 lat) (rate_n_w1 lat) (rate_n_w2 lat)).
+Proof.
+  intros Hlat. cbv zeta. split.
+  - exact (rest_body_specific_force lat lon alt roll pitch heading t Hlat).
+  - exact (rest_body_rate lat lon roll pitch heading t).
+Qed.
+
+Lemma stationary_instance : -90 <= -33 <= 90 /\ -90 <= 78 <= 90.
+Proof. split; lra. Qed.
+
+Lemma two_samples_instance : 1 / 10 - 0 <> 0.
+Proof. lra. Qed.
